@@ -34,6 +34,9 @@ def _apply(op, r, rcls, rng):
         i = r.invert()
         if i is None:
             return r
+        if rng.random() < 0.5:
+            # ... with the inverse printed and parsed in between (what the inverse SAYS it is)
+            i = VersionRange.from_string(str(i))
         j = i.invert()
         return r if j is None else j
     if op.startswith("parse-flags"):
